@@ -1,23 +1,26 @@
-(** C10 — machines do not interfere (PARTIAL at the level of proof).
+(** C10 — machines do not interfere: behaviour is independent of neighbouring machines.
 
-    Proved here, for every configuration, state, event, time and tape:
-    [C10_step_frame] / [C10_decrement_frame]: a step of machine j leaves the
-       runtime and the pending action of every other machine i untouched and
-       never changes the accounting fields -- so the only channels between
-       machines are the pending signal, the shared blocking state and the
-       framework-wide budgets, as the property states;
-    [C10_accounting_projection]: machine i's own counters and the shared
-       accounting (everything its limit checks read) are the same function of
-       the reported events in the combined run and in the solo run on the
-       projected history, for every history.
-    NOT proved here: the full statement that the action streams coincide
-    ([C10_solo] in DESIGN.md) -- it needs a two-run simulation over
-    [transition]. That statement is decided differentially: generated
-    deterministic machines are run next to arbitrary neighbours and alone on
-    the projected history, on the implementation and on the model, and the
-    action streams must coincide (see evidence/C10.json). *)
+    [C10_solo] is the property at full strength in the model: for EVERY
+    configuration, every position i whose machine has deterministic sampling
+    (probability-1 transition vectors, constant distributions: [det_machine_b])
+    and every neighbour set in which no machine can signal ([no_signal_b]),
+    for every history, every start time and every PAIR of random tapes (the
+    neighbours may be arbitrary probabilistic machines and consume the shared
+    tape as they like): the actions returned for machine i in the combined run
+    are, call by call, exactly the actions the machine returns when it runs
+    alone on the projected history (events addressed to neighbours mapped to an
+    unknown id), up to its machine id. Framework-wide fraction limits need not
+    be unset: the projected history keeps the global budgets equal.
+    [C10_solo_total] adds that both runs exist for valid configurations.
+    Proved by a two-run simulation ([NonInterferenceSolo.Rel]) using the frame
+    lemmas below: [C10_step_frame_partial] / [C10_decrement_frame_partial]
+    (a step of machine j leaves the runtime and pending action of every other
+    machine and all accounting fields untouched) and
+    [C10_accounting_projection_partial] (the accounting is the same function
+    of the reported events in both runs). *)
 From MB Require Import Model.Framework.
 From MB Require Import Proofs.FrameworkAcct Proofs.AcctSpec Proofs.PaddingBudget Proofs.BlockingBudget Proofs.NonInterference.
+From MB Require Import Model.Validate Proofs.FrameworkInv Proofs.NonInterferenceSolo.
 Open Scope N_scope.
 
 Theorem C10_step_frame_partial : forall c tp fuel s j ev s' b i,
@@ -53,3 +56,22 @@ Proof.
   repeat (split; [reflexivity|]). exists (0, 0, 0). split; [|reflexivity].
   exact (map_nth_error (fun _ => (0, 0, 0)) _ _ Hm).
 Qed.
+
+Theorem C10_solo : forall c i m tp tp1 t0 h s0 s outs s10 s1 outs1,
+  nth_error (machines c) i = Some m -> det_machine_b m = true -> no_signal_b c = true ->
+  fnew c tp t0 = Ok s0 -> run c tp s0 h = Ok (s, outs) ->
+  fnew (solo_cfg c m) tp1 t0 = Ok s10 -> run (solo_cfg c m) tp1 s10 (proj_hist i h) = Ok (s1, outs1) ->
+  map (acts_of i) outs = map (map (rename_to i)) outs1.
+Proof. exact solo_equals_combined_full. Qed.
+Print Assumptions C10_solo.
+
+Theorem C10_solo_total : forall c i m tp tp1 t0 h,
+  nth_error (machines c) i = Some m -> det_machine_b m = true -> no_signal_b c = true ->
+  valid_cfg c = true -> clock_total (clk c) ->
+  exists s0 s outs s10 s1 outs1,
+    fnew c tp t0 = Ok s0 /\ run c tp s0 h = Ok (s, outs) /\
+    fnew (solo_cfg c m) tp1 t0 = Ok s10 /\
+    run (solo_cfg c m) tp1 s10 (proj_hist i h) = Ok (s1, outs1) /\
+    map (acts_of i) outs = map (map (rename_to i)) outs1.
+Proof. exact solo_equals_combined_full_total. Qed.
+Print Assumptions C10_solo_total.
